@@ -100,7 +100,8 @@ def run(ctx):
                     bad = {'expected': 'text without directive, macro name or comment passes through byte for byte', 'implementation': out[:1500]}
         else:
             n_fail += 1
-            if c['kind'] in ('structured', 'plain'):
+            # a redefinition may leave an earlier macro calling it with the old number of arguments: the reference decides
+            if c['kind'] == 'plain' or (c['kind'] == 'structured' and (b is None or b[0] == 'ok')):
                 bad = {'expected': 'a well-formed source is expanded', 'implementation': 'rejected with %s' % ','.join(a[1])}
         if bad:
             n_or += 1
